@@ -729,7 +729,7 @@ pub fn main(a: &Args) {
         write_file(&a.out.join("cases_corpus.jsonl"), &out);
         out.clear();
     }
-    let n = if a.thorough() { 200_000 } else { 6_000 };
+    let n = if a.thorough() { 60_000 } else { 6_000 };
     let per_file = 500;
     let mut file_no = 0;
     let mut in_file = 0;
